@@ -12,6 +12,8 @@ def templates(tier):
     k = 2 if tier == 'quick' else 3
     ts = [('decimal-last-decade', T(DEC_MAX_DECADE, 2), 38),
           ('decimal-underscores', T('1_000', k), 5),
+          ('decimal-max-with-separators', T('340_282_366_920_938_463_463_374_607_431_768_211_4', 2), 49),
+          ('decimal-40-characters', T('1' + '_' * 37, 3), 38),
           ('hex-32-digits', T('0x' + 'f' * 31, 2), 33),
           ('hex-leading-zeros', T('0x' + '0' * 30 + 'A', 2), 33),
           ('binary-128-digits', T('0b' + '1' * 127, 2), 129),
